@@ -14,6 +14,9 @@ import (
 	"github.com/NethermindEth/juno/core/felt"
 	"github.com/NethermindEth/juno/core/trie"
 	"github.com/NethermindEth/juno/core/trie2"
+	"github.com/NethermindEth/juno/core/trie2/triedb/rawdb"
+	"github.com/NethermindEth/juno/core/trie2/trienode"
+	"github.com/NethermindEth/juno/core/trie2/trieutils"
 	"github.com/NethermindEth/juno/db/memory"
 	"github.com/NethermindEth/juno/verifh/lib"
 )
@@ -359,20 +362,89 @@ func openTrie2(c trieCase) (*impl, error) {
 		return nil, err
 	}
 	var im *impl
-	im = &impl{
-		put: func(k, v *felt.Felt) error { return tr.Update(k, v) },
-		rehash: func() error {
-			r, err := tr.Hash()
-			if err != nil {
+	im = trie2Impl("trie2", h, &tr)
+	im.root = root
+	im.rehash = func() error {
+		r, err := tr.Hash()
+		if err != nil {
+			return err
+		}
+		im.root = r
+		return nil
+	}
+	return im, nil
+}
+
+// openTrie2Persisted: the same leaf set in a trie2 that lives in the node database (raw trie
+// database over a memory store, contract-storage trie of one owner): built, COMMITTED, and
+// REOPENED from the database at its root before anything is proven - the prover then walks
+// nodes decoded from their stored bytes, not the objects the updates created. rehash commits
+// the pending updates and reopens again.
+func openTrie2Persisted(c trieCase) (*impl, error) {
+	h := c.hashFn()
+	store := memory.New()
+	tdb := rawdb.New(store)
+	owner := felt.Address(*lib.F(0xabcdef))
+	mkID := func(root *felt.Felt) trieutils.TrieID {
+		return trieutils.NewContractStorageTrieID(felt.StateRootHash(*root), owner)
+	}
+	cur := felt.Zero
+	gen := uint64(0)
+	tr, err := trie2.New(mkID(&cur), height, h, tdb)
+	if err != nil {
+		return nil, err
+	}
+	for _, it := range c.Items {
+		if err := tr.Update(lib.FeltOfBig(it.K), it.V); err != nil {
+			return nil, err
+		}
+	}
+	var im *impl
+	commitAndReopen := func() error {
+		root, nodes := tr.Commit()
+		if nodes != nil {
+			batch := store.NewBatch()
+			parent := trienode.NewMergeNodeSet(nil)
+			if err := parent.Merge(nodes); err != nil {
 				return err
 			}
-			im.root = r
-			return nil
-		},
-		name: "trie2", root: root,
+			nr, pr := felt.StateRootHash(root), felt.StateRootHash(cur)
+			if err := tdb.Update(&nr, &pr, gen, nil, parent, batch); err != nil {
+				return err
+			}
+			if err := batch.Write(); err != nil {
+				return err
+			}
+			gen++
+		}
+		cur = root
+		nt, err := trie2.New(mkID(&cur), height, h, tdb)
+		if err != nil {
+			return fmt.Errorf("reopen at root %s: %w", root.String(), err)
+		}
+		tr = nt
+		if im != nil {
+			im.root = root
+		}
+		return nil
+	}
+	if err := commitAndReopen(); err != nil {
+		return nil, err
+	}
+	im = trie2Impl("trie2-reopened-from-database", h, &tr)
+	im.root = cur
+	im.rehash = commitAndReopen
+	return im, nil
+}
+
+// trie2Impl wires the prover / verifier closures to whatever trie *trp currently points at.
+func trie2Impl(name string, h crypto.HashFn, trp **trie2.Trie) *impl {
+	return &impl{
+		put:  func(k, v *felt.Felt) error { return (*trp).Update(k, v) },
+		name: name,
 		prove: func(k *felt.Felt) (nproof, func(root, k *felt.Felt) (felt.Felt, error), error) {
 			ps := trie2.NewProofNodeSet()
-			if err := tr.Prove(k, ps); err != nil {
+			if err := (*trp).Prove(k, ps); err != nil {
 				return nil, nil, err
 			}
 			np, err := fromTrie2(ps)
@@ -383,7 +455,7 @@ func openTrie2(c trieCase) (*impl, error) {
 		},
 		rprove: func(l, r *felt.Felt) (nproof, error) {
 			ps := trie2.NewProofNodeSet()
-			if err := tr.GetRangeProof(l, r, ps); err != nil {
+			if err := (*trp).GetRangeProof(l, r, ps); err != nil {
 				return nil, err
 			}
 			return fromTrie2(ps)
@@ -400,7 +472,7 @@ func openTrie2(c trieCase) (*impl, error) {
 		proveBatch: func(keys []*felt.Felt) (nproof, func(root, k *felt.Felt) (felt.Felt, error), error) {
 			ps := trie2.NewProofNodeSet()
 			for _, k := range keys {
-				if err := tr.Prove(k, ps); err != nil {
+				if err := (*trp).Prove(k, ps); err != nil {
 					return nil, nil, err
 				}
 			}
@@ -412,13 +484,12 @@ func openTrie2(c trieCase) (*impl, error) {
 		},
 		rverifNative: func(root, first *felt.Felt, keys, vals []*felt.Felt, l, r *felt.Felt) (bool, error) {
 			ps := trie2.NewProofNodeSet()
-			if err := tr.GetRangeProof(l, r, ps); err != nil {
+			if err := (*trp).GetRangeProof(l, r, ps); err != nil {
 				return false, fmt.Errorf("harness: GetRangeProof: %w", err)
 			}
 			return trie2.VerifyRangeProof(root, first, keys, vals, ps)
 		},
 	}
-	return im, nil
 }
 
 // ---------------------------------------------------------------- membership: completeness
